@@ -73,6 +73,7 @@ let pr_res (r : res) : string =
 
 (* ---- main loop ---- *)
 let grammar : grammar ref = ref []
+let inlined : n list ref = ref []
 
 let handle (line : string) : string =
   let n = String.length line in
@@ -84,7 +85,10 @@ let handle (line : string) : string =
   match cmd with
   | "G" ->
       (match parse_sexp rest with
-       | l -> grammar := List.map rule_of l; "OK")
+       | l -> grammar := List.map rule_of l; inlined := []; "OK")
+  | "B" ->
+      inlined := List.map (fun w -> n_of_int (int_of_string w)) (List.filter (fun w -> w <> "") (String.split_on_char ' ' rest));
+      "OK"
   | "P" ->
       (* P rule k fuel cp cp ... *)
       (match parse_sexp rest with
@@ -109,6 +113,22 @@ let handle (line : string) : string =
             | IUndef -> "ERR"
             | IFuel -> "FUEL")
        | _ -> failwith "PI: arguments")
+  | "PG" ->
+      (* PG rule k fuel cp cp ... : the generated-code model (coq/Gen.v) *)
+      (match parse_sexp rest with
+       | r :: k :: fuel :: cps ->
+           (match gparse !grammar !inlined (nat_of_int (atom_int fuel)) (n_of_int (atom_int r))
+                    (text_of cps) (nat_of_int (atom_int k)) with
+            | GOk (true, _, ps) ->
+                Buffer.clear buf; Buffer.add_string buf "OK";
+                List.iter (fun p -> Buffer.add_char buf ' '; pr_pair p) ps;
+                Buffer.contents buf
+            | GOk (false, s, _) ->
+                Printf.sprintf "FAIL %d %s ; %s" (int_of_z s.i_trk.t_pos) (pr_names s.i_trk.t_exp) (pr_names s.i_trk.t_unexp)
+            | GCrash -> "CRASH"
+            | GUndef -> "ERR"
+            | GFuel -> "FUEL")
+       | _ -> failwith "PG: arguments")
   | "W" -> if wf_auto !grammar then "WF" else "NOTWF"
   | "C" ->
       (* C rule lo hi fuel : code points c in [lo, hi] for which parse rule [c] 0 succeeds, as ranges *)
